@@ -245,7 +245,7 @@ Proof.
     all: try (apply andb_prop in Hs as [Hs Hs3]; apply andb_prop in Hs as [Hs1 Hs2]).
     all: try (rewrite Z.eqb_refl; cbn [negb]; simpl; lia).
     all: try lia.
-    + (* clipped, fixed buffer *) apply Z.leb_le in Hs3. rewrite Z.min_l by lia. lia.
+    all: change (Z.of_nat 1) with 1.
     + (* clipped, bounded *)
       assert (E : Z.min 1 (last maxs 0) = 1).
       { destruct (exists_last (l := maxs)) as (m' & z & ->); [intros ->; simpl in Hs1; discriminate|].
@@ -255,7 +255,6 @@ Proof.
       { destruct (exists_last (l := maxs)) as (m' & z & ->); [intros ->; simpl in Hs1; discriminate|].
         rewrite last_last. rewrite forallb_app in Hs2. apply andb_prop in Hs2 as [_ Hz]. simpl in Hz. lia. }
       rewrite E. simpl. lia.
-    + (* constant, fixed *) apply Z.eqb_eq in Hs3. lia.
     + (* constant, bounded *)
       assert (Hp : 1 <= prod c) by (apply prod_pos, posb_pos; exact Hs2).
       destruct (1 =? prod c) eqn:E; cbn [negb].
@@ -283,10 +282,6 @@ Proof.
         all: try (apply andb_prop in Hs as [Hs Hs3]; apply andb_prop in Hs as [Hs1 Hs2]).
         all: try (apply Z.leb_le in Hs3).
         all: try lia.
-        assert (0 <= Z.min 1 (last maxs 0) <= 1) by (split; [|apply Z.le_min_l];
-          destruct (exists_last (l := maxs)) as (m' & z & ->); [intros ->; simpl in Hs1; discriminate|];
-          rewrite last_last; rewrite forallb_app in Hs2; apply andb_prop in Hs2 as [_ Hz]; simpl in Hz; lia).
-        lia.
 Qed.
 
 (* ---------- every state reachable by a history of construct / resize / write / copy / assign ---------- *)
@@ -355,3 +350,246 @@ Proof.
 Qed.
 
 End Arrays.
+
+(* ---------- mutable views: writing through the view changes exactly the designated source cell ---------- *)
+Section Views.
+Variable A : Type.
+
+Lemma write_through_generic L s (buf : list A) (f : list Z -> list Z) vs i j x :
+  Z.of_nat (length buf) = prod s ->
+  (forall a, inb a vs -> inb (f a) s) ->
+  (forall a b, inb a vs -> inb b vs -> f a = f b -> a = b) ->
+  inb i vs -> inb j vs ->
+  ndarray_get L s (ndarray_set L s buf (f i) x) (f j)
+  = if list_eq_dec Z.eq_dec j i then Some x else ndarray_get L s buf (f j).
+Proof.
+  intros Hl Hin Hinj Hi Hj.
+  rewrite (ndarray_get_set L s buf (f i) (f j) x Hl (Hin i Hi) (Hin j Hj)).
+  destruct (list_eq_dec Z.eq_dec (f j) (f i)) as [E|E]; destruct (list_eq_dec Z.eq_dec j i) as [E'|E']; auto.
+  - exfalso. apply E'. now apply Hinj.
+  - subst. contradiction.
+Qed.
+
+(* at the level of the raw buffer: the length is kept and every cell other than the
+   designated one keeps its value *)
+Lemma set_changes_one_cell L s (buf : list A) q x : Z.of_nat (length buf) = prod s -> inb q s ->
+  let c := Z.to_nat (layout_offset L s q) in
+  length (ndarray_set L s buf q x) = length buf
+  /\ (c < length buf)%nat
+  /\ nth_error (ndarray_set L s buf q x) c = Some x
+  /\ (forall k, k <> c -> nth_error (ndarray_set L s buf q x) k = nth_error buf k).
+Proof.
+  intros Hl Hq c. pose proof (layout_offset_bound L s q Hq) as B.
+  unfold ndarray_set. fold c. assert (Hc : (c < length buf)%nat) by (unfold c; lia).
+  split; [apply upd_length|]. split; [exact Hc|]. split.
+  - rewrite nth_error_upd by exact Hc. now rewrite Nat.eqb_refl.
+  - intros k Hk. rewrite nth_error_upd by exact Hc.
+    destruct (Nat.eqb_spec k c); [contradiction | reflexivity].
+Qed.
+End Views.
+
+(* the index maps of the four mutable views send in-bounds view indices to in-bounds
+   source indices, injectively *)
+Lemma reshape_index_inb d s i : pos s -> inb (view_index (VReshape d) s i) s.
+Proof. intros Hs. simpl. now apply unrav_inb. Qed.
+
+Lemma reshape_index_inj d s a b : pos s -> prod d = prod s -> inb a d -> inb b d ->
+  view_index (VReshape d) s a = view_index (VReshape d) s b -> a = b.
+Proof.
+  intros Hs Hp Ha Hb E. simpl in E.
+  pose proof (off_bound a d Ha) as Ba. pose proof (off_bound b d Hb) as Bb.
+  assert (E2 : compute_offset a (compute_strides d) = compute_offset b (compute_strides d)).
+  { rewrite <- (off_unrav s (compute_offset a (compute_strides d)) Hs)
+      by (rewrite compute_offset_eq, compute_strides_eq; lia).
+    rewrite <- (off_unrav s (compute_offset b (compute_strides d)) Hs)
+      by (rewrite compute_offset_eq, compute_strides_eq; lia).
+    now rewrite E. }
+  rewrite !compute_offset_eq, compute_strides_eq in E2. now apply (off_inj a b d).
+Qed.
+
+Lemma slice_index_inb axes : forall s i,
+  view_accepts (VSlice axes) s = true -> inb i (view_shape (VSlice axes) s) ->
+  inb (view_index (VSlice axes) s i) s.
+Proof.
+  induction axes as [|[[start stp] len] axes IH]; intros [|n s] i Hacc Hi; simpl in *;
+    try discriminate.
+  - inversion Hi. constructor.
+  - apply andb_prop in Hacc as [Hl Hf]. apply andb_prop in Hf as [Hax Hf].
+    inversion Hi as [|x ? i' ? Hx Hi']; subst. simpl. constructor.
+    + apply andb_prop in Hax as [Hax Hr]. apply andb_prop in Hax as [Hst Hlen].
+      apply orb_prop in Hr as [Hz|Hr]; [lia|].
+      apply andb_prop in Hr as [Hr H4]. apply andb_prop in Hr as [Hr H3]. apply andb_prop in Hr as [H1 H2].
+      assert (stp <> 0) by (destruct (stp =? 0) eqn:E; [discriminate | lia]).
+      nia.
+    + apply (IH s i'); [|exact Hi']. simpl. now rewrite Hl, Hf.
+Qed.
+
+Lemma slice_index_inj axes : forall s a b,
+  view_accepts (VSlice axes) s = true ->
+  inb a (view_shape (VSlice axes) s) -> inb b (view_shape (VSlice axes) s) ->
+  view_index (VSlice axes) s a = view_index (VSlice axes) s b -> a = b.
+Proof.
+  induction axes as [|[[start stp] len] axes IH]; intros [|n s] a b Hacc Ha Hb E; simpl in *;
+    try discriminate.
+  - inversion Ha; inversion Hb; reflexivity.
+  - apply andb_prop in Hacc as [Hl Hf]. apply andb_prop in Hf as [Hax Hf].
+    inversion Ha as [|x ? a' ? Hx Ha']; inversion Hb as [|y ? b' ? Hy Hb']; subst. simpl in E.
+    injection E as E1 E2.
+    apply andb_prop in Hax as [Hax _]. apply andb_prop in Hax as [Hst _].
+    assert (stp <> 0) by (destruct (stp =? 0) eqn:E; [discriminate | lia]).
+    assert (x = y) by nia. subst. f_equal.
+    apply (IH s a' b'); auto. simpl. now rewrite Hl, Hf.
+Qed.
+
+Lemma view_index_inb v s i : pos s -> view_accepts v s = true -> inb i (view_shape v s) ->
+  inb (view_index v s i) s.
+Proof.
+  intros Hs Hacc Hi. destruct v as [| |d|axes].
+  - exact Hi.
+  - apply (reshape_index_inb [product s] s i Hs).
+  - now apply reshape_index_inb.
+  - now apply slice_index_inb.
+Qed.
+
+Lemma view_index_inj v s a b : pos s -> view_accepts v s = true ->
+  inb a (view_shape v s) -> inb b (view_shape v s) ->
+  view_index v s a = view_index v s b -> a = b.
+Proof.
+  intros Hs Hacc Ha Hb E. destruct v as [| |d|axes].
+  - exact E.
+  - apply (reshape_index_inj [product s] s a b Hs); auto.
+    simpl. rewrite product_eq_prod. lia.
+  - simpl in Hacc. apply andb_prop in Hacc as [Hp _]. apply Z.eqb_eq in Hp.
+    rewrite !product_eq_prod in Hp. now apply (reshape_index_inj d s a b Hs).
+  - now apply (slice_index_inj axes s a b).
+Qed.
+
+Lemma view_write_through {A} v L s (buf : list A) i j x :
+  pos s -> Z.of_nat (length buf) = prod s -> view_accepts v s = true ->
+  inb i (view_shape v s) -> inb j (view_shape v s) ->
+  vget v L s (vset v L s buf i x) j = if list_eq_dec Z.eq_dec j i then Some x else vget v L s buf j.
+Proof.
+  intros Hs Hl Hacc Hi Hj. unfold vget, vset.
+  apply (write_through_generic A L s buf (view_index v s) (view_shape v s) i j x Hl).
+  - intros a Ha. now apply view_index_inb.
+  - intros a b Ha Hb. now apply view_index_inj.
+  - exact Hi.
+  - exact Hj.
+Qed.
+
+(* ---------- cast preserves shape and (converted) values ---------- *)
+Lemma nth_error_map_zs {B} (f : Z -> B) n k : (k < n)%nat ->
+  nth_error (map f (zs n)) k = Some (f (Z.of_nat k)).
+Proof.
+  intros Hk. unfold zs. rewrite map_map.
+  rewrite (nth_error_map _ _ (fun x => f (Z.of_nat x))) || idtac.
+  erewrite map_nth_error; [reflexivity|]. 
+  rewrite nth_error_nth' with (d := O) by (rewrite seq_length; exact Hk).
+  now rewrite seq_nth.
+Qed.
+
+Lemma nth_lex_enum idx s : inb idx s ->
+  nth_error (lex_enum s) (Z.to_nat (compute_offset idx (compute_strides s))) = Some idx.
+Proof.
+  intros Hi. pose proof (inb_pos idx s Hi) as Hp.
+  rewrite <- (ndindex_is_lex_enum s Hp). unfold zrange, ndindex_size.
+  pose proof (off_bound idx s Hi) as B. rewrite product_eq_prod.
+  rewrite compute_offset_eq, compute_strides_eq.
+  rewrite nth_error_map_zs by lia. f_equal. unfold ndindex.
+  rewrite Z2Nat.id by lia.
+  rewrite <- compute_offset_eq, <- compute_strides_eq. now apply unrav_off.
+Qed.
+
+Section CastProofs.
+Variables A B : Type.
+Variable dfltA : A.
+Variable dfltB : B.
+Variable conv : A -> B.
+
+Lemma cast_preserves (st : state A) k' r : nonneg (st_shape st) ->
+  cast dfltB conv st k' = Some r ->
+  st_shape r = st_shape st
+  /\ st_kind r = k' /\ st_layout r = RowMajor
+  /\ forall idx, inb idx (st_shape st) ->
+       get r idx = Some (match get st idx with Some x => conv x | None => dfltB end).
+Proof.
+  intros Hn Hc. unfold cast in Hc.
+  assert (Hget : forall shp strd, 
+     get (mkState k' RowMajor shp strd (offset_of (sk k') RowMajor (st_shape st) (compute_strides (st_shape st)))
+                  (cast_data A B dfltB conv st)) =
+     fun idx => nth_error (cast_data A B dfltB conv st)
+                  (Z.to_nat (compute_offset idx (compute_strides (st_shape st))))) by reflexivity.
+  assert (Hval : forall idx, inb idx (st_shape st) ->
+     nth_error (cast_data A B dfltB conv st) (Z.to_nat (compute_offset idx (compute_strides (st_shape st))))
+     = Some (match get st idx with Some x => conv x | None => dfltB end)).
+  { intros idx Hi. unfold cast_data. now rewrite (map_nth_error _ _ _ (nth_lex_enum idx _ Hi)). }
+  destruct (sk k') as [n|m| |maxs|c] eqn:Esk.
+  5:{ destruct (list_eq_dec Z.eq_dec c (st_shape st)) as [->|]; [|discriminate].
+      injection Hc as <-. unfold init. rewrite Esk. cbn [init_shape st_shape st_strides st_off st_kind st_layout].
+      split; [reflexivity|]. split; [reflexivity|]. split; [reflexivity|].
+      intros idx Hi. unfold get, st_offset. cbn [st_off st_data offset_of snd]. now apply Hval. }
+  all: destruct (resize dfltB (init dfltB k' RowMajor) (st_shape st)) as [ok r1] eqn:Er;
+       destruct ok; [|discriminate]; injection Hc as <-;
+       pose proof (resize_flag B dfltB (init dfltB k' RowMajor) (st_shape st) Hn) as Hf;
+       rewrite Er in Hf; cbn [fst] in Hf; symmetry in Hf;
+       destruct (resize_accepted B dfltB (init dfltB k' RowMajor) (st_shape st) Hn Hf) as (d1 & E & _);
+       rewrite Er in E; injection E as ->;
+       cbn [st_shape st_strides st_off st_kind st_layout init];
+       (split; [reflexivity|]); (split; [reflexivity|]); (split; [reflexivity|]);
+       intros idx Hi; unfold get, st_offset; cbn [st_off st_data offset_of snd st_kind st_layout init]; now apply Hval.
+Qed.
+End CastProofs.
+
+(* ---------- legacy classes ---------- *)
+Section LegacyProofs.
+Variable A : Type.
+Variable dflt : A.
+
+Definition h_Inv (st : hstate A) : Prop :=
+  length (h_shape st) = h_dim st
+  /\ prod (h_shape st) <= Z.of_nat (h_max st)
+  /\ h_strides st = compute_strides (h_shape st)
+  /\ length (h_buf st) = h_max st.
+
+Lemma h_init_Inv mx dm : (1 <= dm)%nat -> h_Inv (h_init dflt mx dm).
+Proof.
+  intros Hd. unfold h_Inv, h_init. cbn [h_shape h_dim h_max h_strides h_buf].
+  split; [simpl; rewrite repeat_length; lia|]. split; [|split; [reflexivity | apply repeat_length]].
+  cbn [prod]. rewrite <- (app_nil_r (repeat 1 (dm - 1))), prod_repeat_one. simpl. lia.
+Qed.
+
+Lemma h_resize_spec st sizes : h_Inv st ->
+  (fst (h_resize st sizes) = false -> h_resize st sizes = (false, st))
+  /\ h_Inv (snd (h_resize st sizes))
+  /\ fst (h_resize st sizes) = ((length sizes =? h_dim st)%nat && (prod sizes <=? Z.of_nat (h_max st))).
+Proof.
+  intros (H1 & H2 & H3 & H4). unfold h_resize. rewrite product_eq_prod.
+  destruct (length sizes =? h_dim st)%nat eqn:E1; cbn [negb andb].
+  2:{ split; [reflexivity|]. split; [repeat split; assumption | reflexivity]. }
+  destruct (Z.of_nat (h_max st) <? prod sizes) eqn:E2.
+  - split; [reflexivity|]. split; [repeat split; assumption|].
+    symmetry. apply Z.leb_gt. now apply Z.ltb_lt.
+  - split; [discriminate|]. apply Z.ltb_ge in E2. split.
+    + unfold h_Inv. cbn. apply Nat.eqb_eq in E1. repeat split; auto.
+    + symmetry. now apply Z.leb_le.
+Qed.
+
+Definition d_Inv (st : dstate A) : Prop :=
+  prod (d_shape st) = Z.of_nat (length (d_data st))
+  /\ d_strides st = compute_strides (d_shape st)
+  /\ d_numel st = Some (prod (d_shape st)).
+
+(* dynamic_ndarray::resize never refuses and establishes the invariant from ANY state *)
+Lemma d_resize_Inv st sizes : nonneg sizes -> d_Inv (d_resize dflt st sizes) /\ d_shape (d_resize dflt st sizes) = sizes.
+Proof.
+  intros Hn. unfold d_Inv, d_resize. cbn [d_shape d_data d_strides d_numel].
+  pose proof (prod_nonneg sizes Hn). rewrite fold_mul_acc, lresize_length.
+  repeat split; try reflexivity; try lia. f_equal. lia.
+Qed.
+
+Lemma d_write_Inv st i x : d_Inv st -> d_Inv (d_write st i x).
+Proof. intros (H1 & H2 & H3). unfold d_Inv, d_write. cbn. now rewrite upd_length. Qed.
+
+Lemma d_init_not_Inv : ~ d_Inv (@d_init A).
+Proof. intros (H & _). simpl in H. discriminate. Qed.
+End LegacyProofs.
